@@ -503,11 +503,12 @@ class Case:
         R.violation(vid, **dict(self.d, **kw))
 
 
-def check_call(case, client, server, S, enabled, op, V_, ns, n, moc, pattern, learned=None):
+def check_call(case, client, server, S, enabled, op, V_, ns, n, moc, pattern, learned=None, touch_switch=True):
     """Runs the call and checks it.  learned: what earlier calls on this connection could have taught it about this
     operation (None/True/False) - only used to tell the known defects from everything else.
     Returns what this call could teach (True/False/None = nothing)."""
-    server.set_pull(enabled)
+    if touch_switch:
+        server.set_pull(enabled)
     ad = client._imethodcall
     ad.reset()
     if server.table:
@@ -772,21 +773,12 @@ def scenario_invalid_args():
                 one('invalid-args', S, enabled, op, PLAIN, DFLT, 3, Uint32(2), ('close', 1))
 
 
-def follow_ups(scenario, first, client, srv, S, op, ns, n, learned, history):
-    """After a disturbed first call the connection serves further calls as a fresh one would."""
-    for enabled2, V2, pat2 in ((True, PLAIN, ('exhaust',)), (False, PLAIN, ('exhaust',)),
-                               (True, FILT if op != QI else COE_F, ('close', 1))):
-        c = client() if callable(client) else client
-        l2 = learned
-        if callable(client):
-            l2 = first(c)
-        R.case((scenario, 'follow-up') + history + (enabled2, V2.name, pat2))
-        h = [history]
-        check_call(Case(scenario, S, enabled2, op, V2, ns, n, 1, pat2, history=h), c, srv, S, enabled2, op, V2, ns, n,
-                   1, pat2, learned=l2)
+FOLLOW_UPS = ((True, 'plain', ('exhaust',)), (False, 'plain', ('exhaust',)), (True, 'pull-only', ('close', 1)))
 
 
 def scenario_faults():
+    """One disturbed call on a fresh connection; for part of them a second call on the same connection, which has
+    to be served as a fresh connection would serve it."""
     open_faults = ('CIM_ERR_FAILED', 'CIM_ERR_NOT_SUPPORTED', 'CIM_ERR_ACCESS_DENIED', 'ConnectionError')
     pull_faults = ('CIM_ERR_FAILED', 'CIM_ERR_NOT_SUPPORTED', 'ConnectionError', 'TimeoutError')
     for op in OPS:
@@ -797,25 +789,16 @@ def scenario_faults():
                     pats += [('fault', 'Pull', j, f) for j in (1, 2, 3) for f in pull_faults]
                     pats += [('dropctx', k) for k in range(0, n + 1)]
                     for pat in pats:
-                        for V_ in ((PLAIN, COE_F) if pat[1] == 'Open' else (PLAIN,)):
-                            srv = server_for(DFLT, n)
-                            key = ('faults', repr(S), op, n, moc, pat, V_.name)
-                            R.case(key)
-
-                            def first(c, srv=srv, S=S, op=op, n=n, moc=moc, pat=pat, V_=V_):
-                                return check_call(Case('faults', S, True, op, V_, DFLT, n, moc, pat), c, srv, S, True,
-                                                  op, V_, DFLT, n, moc, pat)
-                            if S is False and pat[0] == 'fault':
-                                first(new_client(srv, S))
-                                continue
-                            if moc == 1 and (pat[0] == 'dropctx' or pat[2] == 1):
-                                follow_ups('faults', first, lambda srv=srv, S=S: new_client(srv, S), srv, S, op, DFLT,
-                                           n, None, key[1:])
-                            else:
-                                first(new_client(srv, S))
+                        for vname in (('plain', 'pull-only') if pat[1] == 'Open' else ('plain',)):
+                            first = (op, True, vname, pat)
+                            run_sequence('faults', S, (first,), n=n, moc=moc)
+                            if S is not False and moc == 1 and (pat[0] == 'dropctx' or pat[2] == 1):
+                                for en2, v2, pat2 in FOLLOW_UPS:
+                                    run_sequence('faults', S, (first, (op, en2, v2, pat2)), n=n, moc=moc)
 
 
-def run_sequence(scenario, S, steps, n=2, moc=1, ns=DFLT, client=None, srv=None, client_kind='WBEMConnection'):
+def run_sequence(scenario, S, steps, n=2, moc=1, ns=DFLT, client=None, srv=None, client_kind='WBEMConnection',
+                 first_untouched=False):
     """steps: (op, enabled, variant-name, pattern).  One connection; each call is held against the outcome on a
     fresh connection; the model only remembers what each call could have taught the connection."""
     R.case((scenario, repr(S), n, moc, steps))
@@ -823,10 +806,11 @@ def run_sequence(scenario, S, steps, n=2, moc=1, ns=DFLT, client=None, srv=None,
     client = client or new_client(srv, S)
     learned = {}
     hist = []
-    for op, enabled, vname, pat in steps:
+    for i, (op, enabled, vname, pat) in enumerate(steps):
         V_ = PLAIN if vname == 'plain' else (COE_F if op == QI else FILT)
         t = check_call(Case(scenario, S, enabled, op, V_, ns, n, moc, pat, history=hist, client_kind=client_kind),
-                       client, srv, S, enabled, op, V_, ns, n, moc, pat, learned=learned.get(op))
+                       client, srv, S, enabled, op, V_, ns, n, moc, pat, learned=learned.get(op),
+                       touch_switch=not (first_untouched and i == 0))
         if learned.get(op) is None and t is not None:
             learned[op] = t
         hist.append((OPS[op][0], 'server pull %s' % ('on' if enabled else 'off'), V_.name, pat))
@@ -922,7 +906,7 @@ def scenario_faked_client():
                     kw['disable_pull_operations'] = dis0
                 S_eff = False if S == 'omit' else S      # documented default of the mock
                 en0 = dis0 is not True
-                for toggles in ((en0,), (en0, not en0), (en0, not en0, en0), (not en0, en0)):
+                for toggles in ((en0,), (en0, not en0), (en0, not en0, en0), (en0, en0, not en0)):
                     for op in OPS:
                         mock = pywbem_mock.FakedWBEMConnection(default_namespace=DFLT, **kw)
                         srv = Server({DFLT: n, OTHER: 1}, mock=mock)
@@ -933,10 +917,9 @@ def scenario_faked_client():
                         mock._imethodcall = Adapter(srv)
                         steps = tuple((op, en, 'plain', ('exhaust',) if i % 2 == 0 else ('close', 1))
                                       for i, en in enumerate(toggles))
-                        if toggles[0] != en0:
-                            # first call with the constructor's state, then toggled
-                            steps = ((op, en0, 'plain', ('exhaust',)),) + steps
+                        # the first call meets the server as the constructor left it (the switch is not touched)
                         run_sequence('faked-client', S_eff, steps, n=n, moc=2, client=mock, srv=srv,
+                                     first_untouched=True,
                                      client_kind='FakedWBEMConnection(%s)' % ', '.join(
                                          '%s=%r' % kv for kv in sorted(kw.items())))
     # the property setter accepts booleans and None only
